@@ -417,3 +417,200 @@ def check_signatures(ctx, entries_, root, scan):
             unknown_skip = [p for p in e['skip'] if p not in params]
             ctx.obligation('near-collision table names every parameter of %s %r (skipped with a reason: %s)' % (e['entry'], params, sorted(e['skip']) or 'none'),
                            not missing and not unknown_skip, 'translator', 'not varied: %r; skipped but not a parameter: %r' % (missing, unknown_skip))
+
+
+# ======================================================================================================================
+# SETTING-COLLISION pairs.  dadi's documented module-level settings (Integration.timescale_factor, use_delj_trick, use_old_timestep /
+# old_timescale_factor, ...) and the seeds of the random sources are ARGUMENTS of every call that reads them, handed over by plain
+# attribute assignment (`dadi.Integration.timescale_factor = x`) instead of through the parameter list.  For every integrator d = 1..5 and
+# one_pop_X (constant and time-dependent paths), from_phi d = 1..5, extrapolated models, the demes front end, Godambe, the objective function
+# and the random helpers: calls A, B that differ ONLY in one setting - A under value 1, then the assignment of value 2 (plain assignment, AND
+# through the setter where one exists), then B; B is compared bitwise with B in a pristine interpreter that had value 2 from the start, and A
+# again after value 1 is restored.  (Model/Memo.v section SettingMemo, Props/C20.v C20_setting_outside_key_refuted: a memo keyed on the
+# arguments only is not transparent for such a pair; the failing pair - with the assignment in between - is the replay.)
+#
+# role: 'value'       exercised: 'alts' alternative values, 'context' other settings that must hold for the setting to be read,
+#                     'setter' [(function, args)] documented functions that assign it
+#       'bookkeeping' counters / lazy-import flags: written by dadi itself, not a value handed to a computation
+#       'constant'    never meant to be re-bound, only read
+#       'unavailable' cannot take another value in this environment
+#       'unexercised' read by a function outside the catalogue of the check (reason given)
+#       'outside'     modules outside the families the property names
+SETTING_TABLE = {
+    ('Integration.py', 'timescale_factor'): {'role': 'value', 'alts': [0.002, 0.0005, 0.004, 0.00075, 0.00025],
+                                             'setter': [('Integration.set_timescale_factor', [8, 2]), ('Integration.set_timescale_factor', [10, 1])]},
+    ('Integration.py', 'use_delj_trick'): {'role': 'value', 'alts': [True]},
+    ('Integration.py', 'use_old_timestep'): {'role': 'value', 'alts': [True]},
+    ('Integration.py', 'old_timescale_factor'): {'role': 'value', 'alts': [0.05, 0.2, 0.025, 0.15], 'context': {('Integration.py', 'use_old_timestep'): True}},
+    ('Integration.py', 'cuda_enabled'): {'role': 'unavailable', 'why': 'True needs pycuda and a GPU (dadi.cuda_enabled(True) imports dadi.cuda)'},
+    ('Godambe.py', 'two_pt_deriv_test'): {'role': 'value', 'alts': [True]},
+    ('Inference.py', '_out_of_bounds_val'): {'role': 'value', 'alts': [-1e9, -1e7, -5e8]},
+    ('Inference.py', '_counter'): {'role': 'bookkeeping', 'why': 'number of objective-function evaluations, only printed'},
+    ('Misc.py', 'code'): {'role': 'constant', 'why': 'the nucleotide order CGTA of make_fux_table (file utility)'},
+    ('Spectrum_mod.py', '_imported_demes'): {'role': 'bookkeeping', 'why': 'lazy-import flag of from_demes'},
+    ('Demes/Demes.py', '_imported_demes'): {'role': 'bookkeeping', 'why': 'records whether `import demes` worked'},
+    ('Demes/Inference.py', '_counter'): {'role': 'bookkeeping', 'why': 'number of objective-function evaluations, only printed'},
+    ('Demes/Inference.py', '_out_of_bounds_val'): {'role': 'unexercised', 'why': 'the demes optimiser (Demes.Inference.optimize) is not in the catalogue: it writes YAML files and runs a full optimisation'},
+    ('LowPass/LowPass.py', 'rng'): {'role': 'rng', 'why': 'random SOURCE of the simulated low-pass entries: re-seeded by the driver before every call; the seed is varied as an argument'},
+}
+SETTING_OUTSIDE_DIRS = ('TwoLocus', 'Triallele', 'cuda')
+
+# which files' settings are arguments of which kind of entry point
+SETTING_FILES_OF = {
+    'integ': ['Integration.py', 'Numerics.py', 'PhiManip.py'],
+    'from_phi': ['Integration.py', 'Numerics.py', 'Spectrum_mod.py'],
+    'model': ['Integration.py', 'Numerics.py', 'PhiManip.py', 'Spectrum_mod.py', 'Demographics1D.py', 'Demographics2D.py', 'Demographics3D.py'],
+    'demes': ['Integration.py', 'Numerics.py', 'PhiManip.py', 'Spectrum_mod.py', 'Demes/Demes.py', 'Demes/__init__.py'],
+    'godambe': ['Godambe.py', 'Integration.py'],
+    'inference': ['Inference.py', 'Misc.py', 'Integration.py'],
+}
+
+
+def setting_modname(rel):
+    p = rel[:-3].split('/')
+    if p[-1] == '__init__':
+        p = p[:-1]
+    return '.'.join(p)
+
+
+def setting_role(rel, name):
+    if rel.split('/')[0] in SETTING_OUTSIDE_DIRS:
+        return {'role': 'outside', 'why': 'module outside the families the property names'}
+    return SETTING_TABLE.get((rel, name))
+
+
+def auto_alts(default):
+    """alternative values for a setting the table does not know (a NEW setting: the table obligation fails, the pairs run all the same)"""
+    if isinstance(default, bool):
+        return [not default]
+    if isinstance(default, (int, float)):
+        return [default * 2, default / 2.0] if default else [1, 0.5]
+    return []
+
+
+def setting_entries(cat, rng, nval_of, nbase_of, defaults, gen_fs, quick):
+    """defaults: {(file relative to dadi/, name): literal default} as read from the source (c20_scan.settings_state).
+    Same ENTRY format as entries(); the labels start with 'setting ' / 'random seed'."""
+    E = []
+    value_settings = {}
+    for (rel, name), dflt in sorted(defaults.items()):
+        ro = setting_role(rel, name)
+        if ro is None:
+            if auto_alts(dflt):
+                value_settings[(rel, name)] = {'role': 'value', 'alts': auto_alts(dflt), 'auto': True}
+        elif ro['role'] == 'value':
+            value_settings[(rel, name)] = ro
+
+    def assign(key, val):
+        return {'name': setting_modname(key[0]) + '.' + key[1], 'how': 'assign', 'value': val}
+
+    def add(entry, kind, families, spec, only=None, vacuous_ok=False, nmax=None):
+        """one ENTRY: base = spec with every applicable setting assigned its default explicitly; per setting the calls that differ in it only"""
+        keys = [k for k in sorted(value_settings) if k[0] in SETTING_FILES_OF[kind] and (only is None or k in only)]
+        if not keys:
+            return
+        n = nval_of(families + ['settings'])
+        if nmax is not None and quick and not (set(families + ['settings']) & BROKEN[0]):
+            n = min(n, nmax)
+        if quick:
+            n = min(n, 3)
+        def with_(over, calls=()):
+            st = [assign(k, over.get(k, defaults[k])) for k in keys]
+            st += [{'name': f, 'how': 'call', 'args': list(a)} for f, a in calls]
+            return dict(copy.deepcopy(spec), settings=st)
+        base = with_({})
+        vs = {}
+        for k in keys:
+            ro = value_settings[k]
+            nm = setting_modname(k[0]) + '.' + k[1]
+            ctx = dict(ro.get('context') or {})
+            ctx = {c: v for c, v in ctx.items() if c in keys}
+            alts_ = [a for a in ro['alts'] if a != defaults[k]][:max(1, n)]
+            if ctx:
+                how = ', '.join('%s = %r' % (c[1], v) for c, v in sorted(ctx.items()))
+                # the setting is read only under the context: the chain is (context, default), then (context, value 2), ... - neighbours differ in this setting only
+                vs['setting %s (plain assignment, under %s)' % (nm, how)] = [with_(dict(ctx))] + [with_(dict(list(ctx.items()) + [(k, a)])) for a in alts_]
+            else:
+                vs['setting %s (plain assignment)' % nm] = [with_({k: a}) for a in alts_]
+            for f, a in (ro.get('setter') or [])[:max(1, n - 1)]:
+                vs['setting %s (through %s%r)' % (nm, f, tuple(a))] = [with_({}, calls=[(f, a)])]
+        E.append({'entry': entry, 'families': families + ['settings'], 'src': [], 'base': base, 'vars': vs, 'skip': {}, 'declared': sorted(vs),
+                  'setting': True, 'vacuous_ok': vacuous_ok, 'aba': True})
+
+    I = 'Integration.py'
+    # ---------------------------------------------------------------- every integrator, constant and time-dependent parameters
+    fam = ['model']
+    for _ in range(min(2, nbase_of(fam + ['settings']))):
+        for d, X in ((1, False), (2, False), (3, False), (4, False), (5, False), (1, True)):
+            for nonconst in ((False,) if X else (False, True)):       # one_pop_X: "currently only implemented for constant parameters"
+                pts = min(p for (dd_, p) in cat.phis if dd_ == d)
+                s = {'op': 'integ', 'd': d, 'pts': pts, 'phi': copy.deepcopy(cat.phis[(d, pts)][0]), 'T': rng.choice([0.0625, 0.125]),
+                     'nu': [rng.choice([0.5, 1.0, 2.0]) for _ in range(d)], 'gamma': [rng.choice([1.0, -1.0])] + [rng.choice([0, 1.0, -1.0]) for _ in range(d - 1)],
+                     'h': [rng.choice([0.5, 0.25])] + [0.5] * (d - 1), 'theta0': 1.0, 'nonconst': nonconst}
+                if d > 1:
+                    s['m'] = [[0 if i == j else rng.choice([0, 0.5, 1.0]) for j in range(d)] for i in range(d)]
+                    s['m'][0][1] = rng.choice([0.5, 1.0])
+                if X:
+                    s['X'] = True
+                name = 'Integration.%s (%s parameters)' % ('one_pop_X' if X else INTEG_NAME[d], 'time-dependent' if nonconst else 'constant')
+                add(name, 'integ', fam, s)
+    # ---------------------------------------------------------------- from_phi d = 1..5 (reads no setting today: B must still be its pristine value)
+    for d in (1, 2, 3, 4, 5):
+        pts = min(p for (dd_, p) in cat.phis if dd_ == d)
+        s = {'op': 'from_phi', 'd': d, 'pts': pts, 'phi': copy.deepcopy(cat.phis[(d, pts)][0]), 'ns': [rng.choice([2, 3]) for _ in range(d)]}
+        add('Spectrum.from_phi (%d population%s) under the module-level settings' % (d, '' if d == 1 else 's'), 'from_phi', ['dbeta', 'projection'], s, vacuous_ok=True, nmax=1)
+    # ---------------------------------------------------------------- extrapolated model spectra
+    fam = ['model']
+    models = [('two_epoch', [rng.choice([0.5, 2.0]), 0.5], [4], [8, 10, 12]), ('growth', [rng.choice([0.5, 2.0]), 0.25], [4], [8, 10, 12]),
+              ('split_mig', [rng.choice([0.5, 2.0]), 1.5, 0.25, 1.0], [3, 4], [8, 10]), ('IM', [0.5, 2.0, 0.5, 0.125, 1.0, 0.5], [3, 3], [8, 10]),
+              ('m3', [0.5, 1.0, 2.0, 0.0625, 0.0625, 1.0], [2, 2, 2], 6)]
+    if not quick or (set(fam + ['settings']) & BROKEN[0]):
+        models += [('m4', [0.5, 1.0, 2.0, 1.5, 0.0625, 1.0], [2, 2, 2, 2], 5), ('m5', [0.5, 1.0, 2.0, 1.5, 0.25, 0.0625, 1.0], [2, 2, 2, 2, 2], 4),
+                   ('bottlegrowth_2d', [0.5, 2.0, 0.25], [3, 3], [8, 10])]
+    for kind, p, ns, pts in models:
+        s = {'op': 'model', 'kind': kind, 'p': p, 'ns': ns, 'pts': pts, 'shared_ex': True}
+        add('Numerics.make_extrap_func(%s)(params, ns, pts) under the module-level settings' % kind, 'model', fam + ['dbeta', 'projection'], s, nmax=1)
+    # ---------------------------------------------------------------- the demes front end
+    fam = ['demes']
+    dm = [{'op': 'demes', 'builder': 'split2:500', 'sampled': ['A', 'B'], 'sizes': [3, 3], 'pts': [8]}]
+    if not quick:
+        dm.append({'op': 'demes', 'yaml': 'gutenkunst_ooa.yaml', 'sampled': ['YRI', 'CEU'], 'sizes': [3, 3], 'pts': [8]})
+    for s in dm:
+        add('Spectrum.from_demes (%s) under the module-level settings' % (s.get('yaml') or s['builder']), 'demes', fam, s, nmax=1)
+    # ---------------------------------------------------------------- Godambe (Godambe.cache keeps model spectra between top-level calls)
+    fam = ['godambe']
+    for mn in (True, False):
+        s = cat.g_gim('FIM', rng.choice([2.0, 3.0]))
+        s['multinom'] = mn
+        s['return_mat'] = True          # the information matrix itself (the uncertainties alone are NaN for the small catalogue data when theta is a parameter)
+        add('Godambe.FIM_uncert (multinom=%s) under the module-level settings' % mn, 'godambe', fam, s,
+            only=[('Godambe.py', 'two_pt_deriv_test'), (I, 'timescale_factor')] + [k for k in value_settings if k[0] == 'Godambe.py'], nmax=1)
+    # ---------------------------------------------------------------- the objective function (out of bounds: returns _out_of_bounds_val; in bounds: the model)
+    fam = ['inference']
+    p0 = rng.choice([2.0, 3.0])
+    base = {'op': 'opt', 'f': 'object_func', 'kind': 'two_epoch', 'params': [p0, 0.5], 'data': copy.deepcopy(cat.data1), 'pts': [8, 10],
+            'lower': [p0 + 1, None], 'upper': None, 'fixed': None, 'multinom': True}
+    add('Inference._object_func (parameter below its lower bound) under the module-level settings', 'inference', fam, base,
+        only=[k for k in value_settings if k[0] in ('Inference.py', 'Misc.py')], nmax=1)
+    add('Inference._object_func under the module-level settings', 'inference', fam, dict(copy.deepcopy(base), lower=None),
+        only=[(I, 'timescale_factor')] + [k for k in value_settings if k[0] in ('Inference.py', 'Misc.py') and value_settings[k].get('auto')], nmax=1)
+
+    # ---------------------------------------------------------------- random helpers: the seed of the random source is the argument
+    def add_seed(entry, families, spec, seeds):
+        vs = {'random seed (numpy.random.seed / LowPass.rng set before the call)': [dict(copy.deepcopy(spec), seed=x) for x in seeds if x != spec['seed']]}
+        E.append({'entry': entry, 'families': families + ['settings'], 'src': [], 'base': copy.deepcopy(spec), 'vars': vs, 'skip': {}, 'declared': sorted(vs),
+                  'setting': True, 'vacuous_ok': False, 'aba': True})
+    n = nval_of(['settings'])
+    fs = gen_fs(rng, [9]); fs['vals'] = [v + 1.0 for v in fs['vals']]
+    add_seed('Spectrum.sample', ['projection'], {'op': 'sp', 'm': 'sample', 'fs': fs, 'a': [], 'seed': 11}, [12, 13, 14][:n])
+    add_seed('Spectrum.fixed_size_sample', ['projection'], {'op': 'sp', 'm': 'fixed_size_sample', 'fs': copy.deepcopy(fs), 'a': [25], 'seed': 11}, [12, 13, 14][:n])
+    add_seed('Misc.perturb_params', ['inference'], {'op': 'opt', 'f': 'perturb', 'params': [1.0, 2.0, 0.5], 'lower': None, 'upper': None, 'seed': 1, 'fold': 1}, [2, 3, 4][:n])
+    cov = cat.covs[0]
+    add_seed('LowPass.make_low_pass_func_GATK_multisample (simulated entries)', ['lowpass'],
+             {'op': 'lp', 'f': 'func', 'kind': 'two_epoch', 'p': [2.0, 0.5], 'pts': 8, 'pops': [{'cov': cov, 'nseq': 6, 'nsub': 4, 'F': 0}],
+              'sim_threshold': 0.0625, 'nsim': 12, 'seed': 7}, [8, 9, 10][:n])
+    return E
+
+
+INTEG_NAME = {1: 'one_pop', 2: 'two_pops', 3: 'three_pops', 4: 'four_pops', 5: 'five_pops'}
+BROKEN = [set()]          # set by c20.run before the tables are built: the families whose source obligations broke
